@@ -130,7 +130,7 @@ func (k *c16run) probeRest(addr string, tc *tls.Config, pw string) (served bool,
 }
 
 func runC16(t *testing.T, res *common.Result, rng *common.Rng) {
-	res.Rule = "enumeration of all 32 combinations of {--tls_cert, --tls_key, --client_cert_verify, --client_ca, --password} set/unset on the real server binary with REST enabled: " +
+	res.Rule = "enumeration of all 32 combinations of {--tls_cert, --tls_key, --client_cert_verify, --client_ca, --password} set/unset on the real server binary, once with the REST listener enabled and once without it: " +
 		"start-up classification (refuses / serves) and, when it serves, connection probes on both listeners (plaintext, TLS without client certificate, TLS with the test client certificate); " +
 		"for serving configurations with a password (quick: `pw` and `cert+key+pw`; thorough: all a client can connect to) the credential matrix: " +
 		"shapes {missing, empty, wrong, prefix, suffix, wrong metadata key / wrong scheme, bearer, basic without user, lowercase scheme, malformed base64, extra colons, shifted colon, raw, gateway metadata header, correct, correct with empty user} " +
@@ -143,14 +143,22 @@ func runC16(t *testing.T, res *common.Result, rng *common.Rng) {
 	}
 	shuffle(rng, cfgs)
 	for _, c := range cfgs {
-		k.config(c)
+		k.config(c, true)
+	}
+	// the same enumeration with the REST listener off (the default deployment): the gRPC listener alone
+	// must enforce the settings or the server must refuse to start
+	for _, c := range cfgs {
+		k.config(c, false)
 	}
 }
 
-func (k *c16run) config(c secCfg) {
+func (k *c16run) config(c secCfg, rest bool) {
 	res, t := k.res, k.t
 	slug := c.slug()
-	srv := startServer(t, srvCfg{rest: true, extra: c.flags()})
+	if !rest {
+		slug += "(rest-off)"
+	}
+	srv := startServer(t, srvCfg{rest: rest, extra: c.flags()})
 	defer srv.stop()
 	replay := func(extra map[string]any) map[string]any {
 		m := map[string]any{"config": slug, "server_flags": srv.args}
@@ -180,6 +188,7 @@ func (k *c16run) config(c secCfg) {
 		class = "neither-serves-nor-exits"
 	}
 	res.Eval("startup|"+slug+"|"+class, slug != "none")
+	res.Count(fmt.Sprintf("startup:rest=%v", rest))
 	res.Count("startup:" + class)
 	res.Count("startup:" + slug + ":" + class)
 	res.Sample(map[string]any{"config": slug, "flags": c.flags(), "class": class})
@@ -211,7 +220,10 @@ func (k *c16run) config(c secCfg) {
 	var probes []probe
 	run := func(kind string, tc *tls.Config) (g, r bool) {
 		gs, gd := k.probeGrpc(srv.grpcAddr, tc, pw)
-		rs, rd := k.probeRest(srv.restAddr, tc, pw)
+		rs, rd := false, "REST listener off"
+		if rest {
+			rs, rd = k.probeRest(srv.restAddr, tc, pw)
+		}
 		probes = append(probes, probe{"grpc", kind, gs, gd}, probe{"rest", kind, rs, rd})
 		for _, p := range probes[len(probes)-2:] {
 			res.Eval("probe|"+slug+"|"+p.listener+"|"+kind, true)
@@ -247,6 +259,7 @@ func (k *c16run) config(c secCfg) {
 	}
 	// controls: the probes themselves work
 	switch {
+	case !rest:
 	case !c.anyTLS():
 		if !plainG || !plainR {
 			res.Note("C16 control failed: config %s serves no plaintext although no TLS is configured: %+v", slug, probes)
@@ -265,7 +278,7 @@ func (k *c16run) config(c secCfg) {
 	}
 
 	// ---- credential matrix
-	if !c.pw {
+	if !c.pw || !rest {
 		return
 	}
 	if !common.Thorough() && slug != "pw" && slug != "cert+key+pw" {
